@@ -65,7 +65,12 @@ func (k msgServer) ExecuteOrders(goCtx context.Context, msg *types.MsgExecuteOrd
 		switch perpetualOrder.PerpetualOrderType {
 		case types.PerpetualOrderType_LIMITOPEN:
 			// execute the limit open order
-			err = k.ExecuteLimitOpenOrder(ctx, perpetualOrder)
+			// on a cache context: the error is only logged, so a failed open must leave nothing behind
+			cacheCtx, write := ctx.CacheContext()
+			err = k.ExecuteLimitOpenOrder(cacheCtx, perpetualOrder)
+			if err == nil {
+				write()
+			}
 			// Disable for v1
 			// case types.PerpetualOrderType_LIMITCLOSE:
 			// 	// execute the limit close order
